@@ -90,7 +90,7 @@ def parse_trace(path, root):
                 c = {"call": "open", "path": strs[0], "trunc": "O_TRUNC" in args or name == "creat", "excl": "O_EXCL" in args}
         elif name == "write":
             if anns and under(anns[0]) and strs:
-                c = {"call": "write", "path": anns[0], "data": strs[0][:int(ret)]}
+                c = {"call": "write", "path": anns[0], "data": strs[0][:int(ret)], "n": int(ret)}
         elif name in ("writev", "pwritev", "pwritev2"):
             if anns and under(anns[0]):
                 data = b"".join(strs)[:int(ret)]
@@ -100,7 +100,7 @@ def parse_trace(path, root):
         elif name == "pwrite64":
             if anns and under(anns[0]) and strs:
                 off = int(args.rsplit(",", 1)[1])
-                c = {"call": "pwrite", "path": anns[0], "data": strs[0][:int(ret)], "off": off}
+                c = {"call": "pwrite", "path": anns[0], "data": strs[0][:int(ret)], "off": off, "n": int(ret)}
         elif name in ("ftruncate", "truncate"):
             p = anns[0] if name == "ftruncate" and anns else (strs[0] if strs else None)
             if p and under(p):
@@ -183,6 +183,18 @@ class Replayer:
         self.a, self.b = traced_root.encode(), root.encode()
         self.off = {}
 
+    def full(self, c):
+        """the bytes of a write; a body strace printed only the head of is completed with zeros (big cases: all-zero bodies)"""
+        d = c["data"]
+        n = c.get("n", len(d))
+        if len(d) < n:
+            if not self.zero_fill or d.strip(b"\0"):
+                raise ValueError("trace holds %d of %d written bytes" % (len(d), n))
+            d = d + b"\0" * (n - len(d))
+        return d
+
+    zero_fill = False
+
     def p(self, path):
         path = path.split(b" (deleted)")[0]
         return self.b + path[len(self.a):] if path.startswith(self.a + b"/") or path == self.a else path
@@ -197,14 +209,15 @@ class Replayer:
             self.off[(p, "in")] = 0
         elif k == "write":
             o = self.off.get(p, 0)
+            data = self.full(c)
             with open(p, "r+b") as f:
                 f.seek(o)
-                f.write(c["data"])
-            self.off[p] = o + len(c["data"])
+                f.write(data)
+            self.off[p] = o + len(data)
         elif k == "pwrite":
             with open(p, "r+b") as f:
                 f.seek(c["off"])
-                f.write(c["data"])
+                f.write(self.full(c))
         elif k == "truncate":
             os.truncate(p, c["len"])
         elif k == "extend":
@@ -253,7 +266,7 @@ class Replayer:
 
 def copy_tree(src, dst):
     """copy a store keeping hard links and symbolic links as they are (shutil.copytree would split shared inodes)"""
-    r = subprocess.run(["cp", "-a", src, dst], capture_output=True, text=True)
+    r = subprocess.run(["cp", "-a", "--sparse=always", src, dst], capture_output=True, text=True)
     if r.returncode != 0:
         raise RuntimeError("cp -a failed: " + r.stderr[-300:])
 
@@ -279,8 +292,11 @@ def run_ops_on(ctx, binp, d, ops, noapi=True):
     return obs[0]["obs"]
 
 
-def serve(binp, d):
-    p = subprocess.run([binp, "serve", d], capture_output=True, text=True, timeout=120, env=dict(vlib.goenv(), OLLAMA_MODELS=d))
+def serve(binp, d, noprune=False):
+    env = dict(vlib.goenv(), OLLAMA_MODELS=d)
+    if noprune:
+        env["OLLAMA_NOPRUNE"] = "1"
+    p = subprocess.run([binp, "serve", d], capture_output=True, text=True, timeout=120, env=env)
     return p.returncode, (p.stdout + p.stderr)[-400:]
 
 
@@ -309,7 +325,7 @@ def referenced_names(st, only_paths=None):
     return ref
 
 
-def run_case(ctx, binp, fx, pre, group, tag, kill_sample=0, rng=None):
+def run_case(ctx, binp, fx, pre, group, tag, kill_sample=0, rng=None, big=False):
     """returns a Case with everything the monitor and the correspondence need (or raises)"""
     c = Case()
     c.pre, c.group, c.tag = pre, group, tag
@@ -330,7 +346,8 @@ def run_case(ctx, binp, fx, pre, group, tag, kill_sample=0, rng=None):
     opf = os.path.join(wd, "op.json")
     json.dump({"ops": c04.strip(group)}, open(opf, "w"))
     log = os.path.join(wd, "trace.log")
-    p = subprocess.run(["strace", "-f", "-y", "-xx", "-s", "4000000", "-o", log, "-e", "trace=" + TRACE_SET, binp, "op", tr, opf],
+    c.big = big
+    p = subprocess.run(["strace", "-f", "-y", "-xx", "-s", "4096" if big else "4000000", "-o", log, "-e", "trace=" + TRACE_SET, binp, "op", tr, opf],
                        capture_output=True, text=True, timeout=300, env=vlib.goenv())
     if p.returncode != 0:
         raise RuntimeError("traced run failed rc=%d %s" % (p.returncode, p.stderr[-500:]))
@@ -344,10 +361,18 @@ def run_case(ctx, binp, fx, pre, group, tag, kill_sample=0, rng=None):
     rp = os.path.join(wd, "replay")
     copy_tree(base, rp)
     R = Replayer(tr, rp)
+    R.zero_fill = big
     c.states = [c.base_state]
     c.snaps = [base]
+    nbody = 0
     for j, call in enumerate(calls):
         R.apply(call)
+        if big and call["call"] in ("pwrite", "write") and call["path"].endswith(b"-partial") and j + 1 < len(calls) \
+                and calls[j + 1]["call"] in ("pwrite", "write") and calls[j + 1]["path"] == call["path"]:
+            # a 100 MB body arrives in thousands of writes: crash points inside a run of body writes are sampled
+            nbody += 1
+            if nbody % 700:
+                continue
         st = proj_state(binp, rp)
         if st != c.states[-1]:
             sn = os.path.join(wd, "snap-%d" % (j + 1))
@@ -374,16 +399,16 @@ def run_case(ctx, binp, fx, pre, group, tag, kill_sample=0, rng=None):
     return c
 
 
-def recover_and_redo(ctx, binp, c, i):
-    """the real start-up on crash state i, then the operation again"""
+def recover_and_redo(ctx, binp, c, i, mode="prune"):
+    """the real start-up on crash state i (mode "noprune": with OLLAMA_NOPRUNE=1), then the operation again"""
     sn = c.snaps[i]
-    rd = sn + "-rec%d" % i
+    rd = sn + "-rec%d%s" % (i, mode)
     copy_tree(sn, rd)
-    rc, out = serve(binp, rd)
+    rc, out = serve(binp, rd, noprune=(mode == "noprune"))
     rst = proj_state(binp, rd)
     obs = run_ops_on(ctx, binp, rd, c.group, noapi=False)
     shutil.rmtree(rd, ignore_errors=True)
-    return {"rc": rc, "out": out, "state": rst}, obs
+    return {"rc": rc, "out": out, "state": rst, "mode": mode}, obs
 
 
 def strip_temp(st):
@@ -401,8 +426,11 @@ def monitor_case(c):
     others = {p for p in base_m if fold(tuple(p.split("/"))) not in inv}
     keep_blobs = referenced_names(c.base_state, others)
     bb = {b["name"]: b for b in c.base_state["blobs"]}
-    for i, (st, rec, redo) in enumerate(zip(c.states, c.recovered, c.redone)):
+    c.skip_redo_corr = set()
+    for j, (i, rec, redo) in enumerate(zip(c.rec_state, c.recovered, c.redone)):
+        st = c.states[i]
         rst = rec["state"]
+        mode = rec["mode"]
         if rec["rc"] != 0:
             out.append(({"class": "startup-failed", "op": kinds}, "start-up after a crash in %s failed: %s" % (kinds, rec["out"]), i))
         for e in rst["manifests"] + rst["blobs"]:
@@ -437,9 +465,15 @@ def monitor_case(c):
         # restore the uninterrupted result; C12_redo_torn_exact: otherwise it cannot)
         req_names = [parse_name(o["dst"] if o["op"] == "copy" else o["name"]) for o in c.group if o["op"] in ("create", "copy", "pull")]
         respelled = any(tuple(p.split("/")) not in req_names for p in torn_paths)
+        torn_rec = any(b.get("part") == "torn" for b in rst["blobs"])
+        if ref_ok and not ok and torn_rec and any(o["op"] == "pull" for o in c.group):
+            # the model describes the repaired Prepare (fixes/C12-torn-part-record.patch); where the code still fails on a torn
+            # part record the repeated pull is not compared with the model
+            c.skip_redo_corr.add(j)
         if ref_ok and not ok:
-            out.append(({"class": "redo-fails", "op": kinds, "self_referential": selfref, "torn_manifest": torn},
-                        "repeating %s after a crash at prefix %d and restart fails: %s" % (kinds, i, [(ob.get("code"), ob.get("errors"), ob.get("body", "")[-120:]) for ob in redo]), i))
+            out.append(({"class": "redo-fails", "op": kinds, "self_referential": selfref, "torn_manifest": torn, "torn_part_record": torn_rec,
+                         "restart": mode},
+                        "repeating %s after a crash at prefix %d and a restart (%s) fails: %s" % (kinds, i, mode, [(ob.get("code"), ob.get("errors"), ob.get("body", "")[-120:]) for ob in redo]), i))
         elif ref_ok:
             fm = {m["path"]: m for m in last["state"]["manifests"]}
             want = {m["path"]: m for m in c.ref_state["manifests"]}
@@ -490,9 +524,14 @@ def render_case(fx, c):
     recs = [cq_store(ids, r["state"]) for r in c.recovered]
     items = []
     items.append(("chk_crash_prefixes", "chk_crash_prefixes_seq %s %s %s %s" % ("TBL", cq_list(pre_ops, "action"), cq_list(grp, "op"), cq_list(states, "store"))))
-    for st, rc in zip(states, recs):
-        items.append(("chk_recover", "chk_recover TBL %s %s" % (st, rc)))
-    for rc, redo, rec in zip(recs, c.redone, c.recovered):
+    for i, rc, rec in zip(c.rec_state, recs, c.recovered):
+        if rec["mode"] == "noprune":
+            items.append(("chk_recover_noprune", "chk_recover_noprune %s %s" % (states[i], rc)))
+        else:
+            items.append(("chk_recover", "chk_recover TBL %s %s" % (states[i], rc)))
+    for j, (rc, redo, rec) in enumerate(zip(recs, c.redone, c.recovered)):
+        if j in getattr(c, "skip_redo_corr", ()):
+            continue
         # the oracle inputs of the repeated operation are read off the repeated run itself
         before = rec["state"]
         ops2, steps = [], []
@@ -537,6 +576,9 @@ def gen_pre(rng, fx):
     if rng.random() < 0.25:
         # the crash hits a store an older version left: the restart has to run fixBlobs for real
         pre.append(c04.gen_legacy(rng, fx, [k]))
+    elif rng.random() < 0.25:
+        # a torn manifest somewhere else in the store: server.Serve then skips pruning, partial downloads survive the restart
+        pre.append({"op": "corrupt", "path": "/".join(parse_name(n1))})
     return pre
 
 
@@ -584,6 +626,8 @@ def gen_group(rng, fx, klass, state):
             if rng.random() < 0.5:
                 op[kk] = rng.choice(pool)
         return [{"op": "blob", "digest": "sha256:" + sha(b), "data": b.hex(), "_fx": k}, op]
+    if klass == "pull-big":
+        return [c04.gen_pull_big(rng, fx, target())]
     return [c04.gen_pull(rng, fx, target(), small=True)]
 
 
@@ -618,6 +662,8 @@ def run(ctx):
     for i in range(n):
         plan.append(classes[i % len(classes)])
     plan += ["pull"] * (3 if ctx.quick() else 40)
+    if not ctx.quick():
+        plan += ["pull-big"] * 2   # a layer of two download parts (> 100 MB, all-zero body): monitor only
     pres = [gen_pre(rng, fx) for _ in plan]
     pobs, err = c04.run_histories(ctx, binp, pres, noapi=True)
     if pobs is None:
@@ -629,7 +675,8 @@ def run(ctx):
     def work(a):
         i, (k, pre, group) = a
         try:
-            return run_case(ctx, binp, fx, pre, group, "%d" % i, kill_sample=(1 if ctx.quick() else 6), rng=__import__("random").Random(ctx.seed * 7919 + i))
+            return run_case(ctx, binp, fx, pre, group, "%d" % i, kill_sample=(1 if ctx.quick() else 6), rng=__import__("random").Random(ctx.seed * 7919 + i),
+                            big=(k == "pull-big"))
         except UnknownCall as ex:
             return ("unknown-call", str(ex), k, pre, group)
         except Exception as ex:  # reported below
@@ -637,25 +684,33 @@ def run(ctx):
             return ("error", traceback.format_exc(), k, pre, group)
     with concurrent.futures.ThreadPoolExecutor(12) as ex:
         results = list(ex.map(work, enumerate(cases)))
-        jobs = [(c, i) for c in results if not isinstance(c, tuple) for i in range(len(c.states))]
+        jobs = []
+        for ci, c in enumerate(results):
+            if isinstance(c, tuple):
+                continue
+            # every crash state is restarted normally; pulls (whose debris a restart may or may not clean) and every
+            # third other case also with OLLAMA_NOPRUNE=1
+            modes = ["prune", "noprune"] if (any(o["op"] == "pull" for o in c.group) or ci % 3 == 0) else ["prune"]
+            jobs += [(c, i, m) for i in range(len(c.states)) for m in modes]
 
         def work2(a):
-            c, i = a
+            c, i, m = a
             try:
-                return recover_and_redo(ctx, binp, c, i)
+                return recover_and_redo(ctx, binp, c, i, m)
             except Exception:
                 import traceback
                 return traceback.format_exc()
         out2 = list(ex.map(work2, jobs))
     for c in results:
         if not isinstance(c, tuple):
-            c.recovered, c.redone, c.err = [], [], None
-    for (c, i), r in zip(jobs, out2):
+            c.recovered, c.redone, c.rec_state, c.err = [], [], [], None
+    for (c, i, m), r in zip(jobs, out2):
         if isinstance(r, str):
             c.err = r
         else:
             c.recovered.append(r[0])
             c.redone.append(r[1])
+            c.rec_state.append(i)
     results = [c if isinstance(c, tuple) or not c.err else ("error", c.err, None, c.pre, c.group) for c in results]
     items, meta = [], []
     reported = set()
@@ -687,8 +742,10 @@ def run(ctx):
             if key in reported:
                 continue
             reported.add(key)
-            ctx.violation(sig, what, dict(hist, crash_prefix=i, crash_state=c.states[i], after_restart=c.recovered[i]["state"],
+            ctx.violation(sig, what, dict(hist, crash_prefix=i, crash_state=c.states[i],
                                           ops={"pre": c04.strip(pre), "group": c04.strip(group)}))
+        if c.big:
+            continue  # layers of several parts are outside the model (Ops.download has one part): the monitor judged them
         try:
             for ob, term in render_case(fx, c):
                 items.append(term)
@@ -717,11 +774,13 @@ def replay(ctx, path):
         return
     fx = c04.Fixtures(ctx, binp)
     c = run_case(ctx, binp, fx, ops["pre"], ops["group"], "replay")
-    c.recovered, c.redone = [], []
+    c.recovered, c.redone, c.rec_state = [], [], []
     for i in range(len(c.states)):
-        a, b = recover_and_redo(ctx, binp, c, i)
-        c.recovered.append(a)
-        c.redone.append(b)
+        for m in ("prune", "noprune"):
+            a, b = recover_and_redo(ctx, binp, c, i, m)
+            c.recovered.append(a)
+            c.redone.append(b)
+            c.rec_state.append(i)
     for (sig, what, i) in monitor_case(c):
         ctx.violation(sig, what, {"ops": ops, "crash_prefix": i})
     ctx.note_case(ops, True, "replay")
